@@ -49,6 +49,8 @@ class Patches:
         """Underlying base image."""
 
         # FIXME
+        if self.base.space_dim == 1:
+            raise NotImplementedError("1d patches are not supported!")
         if self.base.space_dim == 3:
             raise NotImplementedError("3d patches are not tested yet!")
         if self.base.time_dim == 1:
